@@ -66,11 +66,15 @@ class Parameter(BaseModel):
             escaped = str(value).replace("'", "''")
             return f"'{escaped}'"
         elif self.type == "date":
-            # Format as quoted date string (SQLGlot will handle casting)
-            return f"'{value}'"
+            # Format as quoted date string (SQLGlot will handle casting); escape quotes like strings
+            escaped = str(value).replace("'", "''")
+            return f"'{escaped}'"
         elif self.type == "number":
             # Validate that value is actually numeric to prevent SQL injection
             if isinstance(value, (int, float)):
+                # NaN and infinity are not numeric literals (they would be emitted as bare identifiers)
+                if isinstance(value, float) and not (-float("inf") < value < float("inf")):
+                    raise ValueError(f"Invalid numeric value: {value}")
                 return str(value)
             elif isinstance(value, str):
                 # Try to parse as float to ensure it's valid
